@@ -31,6 +31,7 @@ import (
 	"os"
 	"os/exec"
 	"path/filepath"
+	"regexp"
 	"sort"
 	"strings"
 
@@ -168,6 +169,9 @@ func inlinable(c candidate) string {
 }
 
 type normaliser struct {
+	spelled   map[token.Position]bool
+	pending   map[*types.Func]bool // functions whose own body still holds a call to expand: they are expanded a round later
+	skipped   int
 	pkgs      []*packages.Package
 	fset      *token.FileSet
 	cands     map[*types.Func]candidate
@@ -216,7 +220,7 @@ type calleeDesc struct {
 
 // staticCallee resolves a call to a candidate function (plain function or method called on a value).
 func (N *normaliser) staticCallee(pkg *packages.Package, call *ast.CallExpr) (*types.Func, ast.Expr) {
-	switch f := call.Fun.(type) {
+	switch f := ast.Unparen(call.Fun).(type) {
 	case *ast.Ident:
 		if o, ok := pkg.TypesInfo.Uses[f].(*types.Func); ok {
 			return o, nil
@@ -231,7 +235,32 @@ func (N *normaliser) staticCallee(pkg *packages.Package, call *ast.CallExpr) (*t
 					return nil, nil
 				}
 				if len(sel.Index()) != 1 {
-					return nil, nil // promoted through an embedded field
+					// promoted through an embedded field: for a function to expand the field is spelled out
+					// (`v.m()` → `v.Embedded.m()`), and the next round sees a plain method call
+					if _, isCand := N.cands[o]; isCand && N.edits != nil {
+						key := N.fset.Position(f.Sel.Pos())
+						if N.spelled == nil {
+							N.spelled = map[token.Position]bool{}
+						}
+						if !N.spelled[key] {
+							t := sel.Recv()
+							path := ""
+							for _, ix := range sel.Index()[:len(sel.Index())-1] {
+								if pt, isP := t.Underlying().(*types.Pointer); isP {
+									t = pt.Elem()
+								}
+								st, isS := t.Underlying().(*types.Struct)
+								if !isS || ix >= st.NumFields() || !st.Field(ix).Exported() && st.Field(ix).Pkg() != pkg.Types {
+									return nil, nil
+								}
+								path += st.Field(ix).Name() + "."
+								t = st.Field(ix).Type()
+							}
+							N.spelled[key] = true
+							N.edits[key.Filename] = append(N.edits[key.Filename], textEdit{key.Offset, 0, path})
+						}
+					}
+					return nil, nil
 				}
 				return o, f.X
 			}
@@ -444,6 +473,7 @@ func resultClosures(pkgs []*packages.Package) map[*types.Var]*localClosure {
 		nDef := map[*types.Var]int{}
 		callFun := map[*ast.Ident]bool{}
 		lhsUse := map[*ast.Ident]bool{}
+		rrFrom := map[*types.Var][]*types.Var{} // result variable → result variables of inner expansions handed on
 		for _, f := range p.Syntax {
 			ast.Inspect(f, func(n ast.Node) bool {
 				switch x := n.(type) {
@@ -479,6 +509,12 @@ func resultClosures(pkgs []*packages.Package) map[*types.Var]*localClosure {
 							case *ast.FuncLit:
 								lits[v] = append(lits[v], y)
 							case *ast.Ident:
+								if strings.HasPrefix(y.Name, "__r") {
+									if rv, ok := p.TypesInfo.Uses[y].(*types.Var); ok {
+										rrFrom[v] = append(rrFrom[v], rv)
+										break
+									}
+								}
 								if y.Name != "nil" {
 									bad[v] = true
 								}
@@ -509,10 +545,33 @@ func resultClosures(pkgs []*packages.Package) map[*types.Var]*localClosure {
 		}
 		cand := map[*types.Var]*localClosure{}
 		for rv, ls := range lits {
-			if bad[rv] || len(ls) != 1 {
+			if bad[rv] || len(ls) != 1 || len(rrFrom[rv]) > 0 {
 				continue
 			}
 			cand[rv] = &localClosure{v: rv, lit: ls[0]}
+		}
+		// a result variable that only hands on the result variable of an inner expansion
+		for changed := true; changed; {
+			changed = false
+			for rv, from := range rrFrom {
+				if cand[rv] != nil || bad[rv] || len(lits[rv]) > 0 {
+					continue
+				}
+				var lit *ast.FuncLit
+				ok := true
+				for _, fv := range from {
+					lc := cand[fv]
+					if lc == nil || lit != nil && lc.lit != lit {
+						ok = false
+						break
+					}
+					lit = lc.lit
+				}
+				if ok && lit != nil {
+					cand[rv] = &localClosure{v: rv, lit: lit}
+					changed = true
+				}
+			}
 		}
 		for v, rv := range alias {
 			if lc := cand[rv]; lc != nil && nDef[v] == 1 && !bad[v] {
@@ -629,6 +688,10 @@ func bodyReason(pkg *packages.Package, body *ast.BlockStmt, self *types.Func) st
 func (N *normaliser) descOf(pkg *packages.Package, call *ast.CallExpr) (*calleeDesc, ast.Expr) {
 	if o, recv := N.staticCallee(pkg, call); o != nil {
 		if c, isCand := N.cands[o]; isCand {
+			if N.pending[o] {
+				N.skipped++
+				return nil, nil
+			}
 			sig := o.Type().(*types.Signature)
 			d := &calleeDesc{name: c.name, pkg: c.pkg, ftype: c.fd.Type, recv: c.fd.Recv, body: c.fd.Body, sig: sig, reason: N.reason[o], fn: o}
 			if d.reason == "type parameters" {
@@ -1367,11 +1430,14 @@ func (N *normaliser) siteIsTail(s ast.Stmt, c *ast.CallExpr) bool {
 // expand builds the edits for one call site; returns a reason when it cannot.
 func (N *normaliser) expand(pkg *packages.Package, file *ast.File, encl *ast.FuncDecl, s ast.Stmt, call *ast.CallExpr, d *calleeDesc, recvExpr ast.Expr) string {
 	sig := d.sig
-	if sig.Variadic() {
-		return "variadic"
-	}
-	if len(call.Args) != sig.Params().Len() {
+	spread := sig.Variadic() && !call.Ellipsis.IsValid() // f(a, b, c) for f(xs ...T): xs is []T{a, b, c}
+	if !spread && len(call.Args) != sig.Params().Len() || spread && len(call.Args) < sig.Params().Len()-1 {
 		return "multi-value argument"
+	}
+	if len(call.Args) == 1 {
+		if _, isTup := pkg.TypesInfo.TypeOf(call.Args[0]).(*types.Tuple); isTup {
+			return "multi-value argument"
+		}
 	}
 	N.seq++
 	id := N.seq
@@ -1437,7 +1503,28 @@ func (N *normaliser) expand(pkg *packages.Package, file *ast.File, encl *ast.Fun
 			for _, n := range names {
 				pn := uniq(n, k)
 				lhs = append(lhs, pn)
-				rhs = append(rhs, "("+N.typeText(pkg, file, sig.Params().At(k).Type())+")("+N.text(call.Args[k])+")")
+				if spread && k == sig.Params().Len()-1 {
+					var elems []string
+					for _, a := range call.Args[k:] {
+						elems = append(elems, N.text(a))
+					}
+					st := N.typeText(pkg, file, sig.Params().At(k).Type())
+					if len(elems) == 0 {
+						rhs = append(rhs, "("+st+")(nil)")
+					} else {
+						rhs = append(rhs, st+"{"+strings.Join(elems, ", ")+"}")
+					}
+					use = append(use, pn)
+					k++
+					continue
+				}
+				if N.ifaceParamOnlyCalled(pkg, d, n, sig.Params().At(k).Type(), call.Args[k]) {
+					// an interface parameter that the body only calls methods on keeps the type of what is passed: the
+					// methods called are then the argument type's own (AccountManager.Get, not accountLookup.Get)
+					rhs = append(rhs, "("+N.text(call.Args[k])+")")
+				} else {
+					rhs = append(rhs, "("+N.typeText(pkg, file, sig.Params().At(k).Type())+")("+N.text(call.Args[k])+")")
+				}
 				use = append(use, pn)
 				if fl, ok := ast.Unparen(call.Args[k]).(*ast.FuncLit); ok {
 					litParams = append(litParams, struct {
@@ -1511,6 +1598,17 @@ func (N *normaliser) expand(pkg *packages.Package, file *ast.File, encl *ast.Fun
 				for _, r := range x.Results {
 					if fl, ok := ast.Unparen(r).(*ast.FuncLit); ok {
 						returned = append(returned, fl)
+					}
+				}
+			case *ast.AssignStmt:
+				// the literal an inner expansion left in its result variable (which the body then returns)
+				if len(x.Lhs) == len(x.Rhs) {
+					for i, r := range x.Rhs {
+						if fl, ok := ast.Unparen(r).(*ast.FuncLit); ok {
+							if id := identOf(x.Lhs[i]); id != nil && strings.HasPrefix(id.Name, "__r") {
+								returned = append(returned, fl)
+							}
+						}
 					}
 				}
 			}
@@ -1614,6 +1712,7 @@ func (N *normaliser) expand(pkg *packages.Package, file *ast.File, encl *ast.Fun
 			}
 		}
 	}
+	labelledReturn := map[*ast.ReturnStmt]bool{}
 	var walk func(n ast.Node) bool
 	walk = func(n ast.Node) bool {
 		switch x := n.(type) {
@@ -1649,6 +1748,11 @@ func (N *normaliser) expand(pkg *packages.Package, file *ast.File, encl *ast.Fun
 				}
 				t = "{ " + strings.Join(rnames, ", ") + " = " + strings.Join(parts, ", ") + "; " + runDefers(x.Pos()) + "break " + label + " }"
 			}
+			if !labelledReturn[x] {
+				// (no block of its own: what an expansion inside the returned expression declares stays in scope for
+				// the code after the label, which may call a function value it produced)
+				t = strings.TrimSuffix(strings.TrimPrefix(t, "{ "), " }")
+			}
 			bedits = append(bedits, textEdit{p, e - p, t})
 			return false
 		case *ast.LabeledStmt:
@@ -1665,6 +1769,14 @@ func (N *normaliser) expand(pkg *packages.Package, file *ast.File, encl *ast.Fun
 		}
 		return true
 	}
+	ast.Inspect(d.body, func(n ast.Node) bool {
+		if ls, ok := n.(*ast.LabeledStmt); ok {
+			if r, ok := ls.Stmt.(*ast.ReturnStmt); ok {
+				labelledReturn[r] = true
+			}
+		}
+		return true
+	})
 	ast.Inspect(d.body, walk)
 	if capture != "" {
 		return "a name of the body would be captured by the caller's local " + capture
@@ -1986,7 +2098,8 @@ func normalise(repo string, vocab map[string]bool, decls *refDecls) (*normInfo, 
 			sort.Strings(info.NewFuncs)
 		}
 	}
-	for round := 1; round <= 8; round++ {
+	innermostFirst := true
+	for round := 1; round <= 10; round++ {
 		pkgs, err = loadSyntax(tmp)
 		if err != nil {
 			return info, fmt.Errorf("normalised copy does not type-check after round %d: %v", round-1, err)
@@ -1999,38 +2112,127 @@ func normalise(repo string, vocab map[string]bool, decls *refDecls) (*normInfo, 
 			N.cands[c.obj] = c
 			N.reason[c.obj] = inlinable(c)
 		}
-		// parameters of already expanded helpers that are bound to a function literal: `__pN_f := (func() T)(func() T {…})`
-		bound := map[*types.Var]string{}
-		boundExpr := map[*types.Var]ast.Expr{}
-		for _, p := range pkgs {
-			if !strings.HasPrefix(p.PkgPath, "github.com/jhalter/mobius") {
-				continue
-			}
-			for _, f := range p.Syntax {
-				ast.Inspect(f, func(n ast.Node) bool {
-					as, ok := n.(*ast.AssignStmt)
-					if !ok || as.Tok != token.DEFINE || len(as.Lhs) != len(as.Rhs) {
-						return true
-					}
-					for i, l := range as.Lhs {
-						id, ok := l.(*ast.Ident)
-						if !ok || !strings.HasPrefix(id.Name, "__p") {
-							continue
-						}
-						v, _ := p.TypesInfo.Defs[id].(*types.Var)
-						r := ast.Unparen(as.Rhs[i])
-						if c, ok := r.(*ast.CallExpr); ok && len(c.Args) == 1 {
-							r = ast.Unparen(c.Args[0])
-						}
-						if fl, ok := r.(*ast.FuncLit); ok && v != nil {
-							N.litOf[v] = fl
-						} else if v != nil && isFuncValue(p, r) {
-							bound[v] = N.text(r)
-							boundExpr[v] = r
+		if innermostFirst {
+			// innermost first: a function whose body calls another function to expand is itself expanded once that
+			// has happened, so that what the inner one declares (and a literal it returns may use) is treated as the
+			// outer body's own
+			N.pending = map[*types.Func]bool{}
+			for o, c := range N.cands {
+				ast.Inspect(c.fd.Body, func(n ast.Node) bool {
+					if call, ok := n.(*ast.CallExpr); ok {
+						if o2, _ := N.staticCallee(c.pkg, call); o2 != nil && o2 != o {
+							if _, isC := N.cands[o2]; isC && (N.reason[o2] == "" || N.reason[o2] == "defer") {
+								N.pending[o] = true
+							}
 						}
 					}
 					return true
 				})
+			}
+		}
+		// parameters of already expanded helpers that are bound to a function literal: `__pN_f := (func() T)(func() T {…})`
+		bound := map[*types.Var]string{}
+		boundExpr := map[*types.Var]ast.Expr{}
+		boundAliasDef := map[*types.Var]*ast.AssignStmt{}
+		aliasMarked := map[*types.Var]bool{}
+		for _, p := range pkgs {
+			if !strings.HasPrefix(p.PkgPath, "github.com/jhalter/mobius") {
+				continue
+			}
+			// hoisted parameters (`var __vN___pM_f T; … __vN___pM_f = …`) are bound by their one assignment
+			nAssign := map[*types.Var]int{}
+			for _, f := range p.Syntax {
+				ast.Inspect(f, func(n ast.Node) bool {
+					if as, ok := n.(*ast.AssignStmt); ok && as.Tok == token.ASSIGN {
+						for _, l := range as.Lhs {
+							if id := identOf(l); id != nil {
+								if v, ok := p.TypesInfo.Uses[id].(*types.Var); ok {
+									nAssign[v]++
+								}
+							}
+						}
+					}
+					return true
+				})
+			}
+			via := map[*types.Var]*types.Var{} // bound to whatever another such variable is bound to
+			viaExpr := map[*types.Var]ast.Expr{}
+			for _, f := range p.Syntax {
+				ast.Inspect(f, func(n ast.Node) bool {
+					as, ok := n.(*ast.AssignStmt)
+					if !ok || as.Tok != token.DEFINE && as.Tok != token.ASSIGN || len(as.Lhs) != len(as.Rhs) {
+						return true
+					}
+					for i, l := range as.Lhs {
+						id, ok := l.(*ast.Ident)
+						if !ok {
+							continue
+						}
+						var v *types.Var
+						switch {
+						case as.Tok == token.DEFINE && strings.HasPrefix(id.Name, "__p"):
+							v, _ = p.TypesInfo.Defs[id].(*types.Var)
+						case as.Tok == token.ASSIGN && strings.HasPrefix(id.Name, "__v") && strings.Contains(id.Name, "___p"):
+							v, _ = p.TypesInfo.Uses[id].(*types.Var)
+							if v != nil && nAssign[v] != 1 {
+								v = nil
+							}
+						case as.Tok == token.ASSIGN && strings.HasPrefix(id.Name, "__r"):
+							// the result variable of an expansion that is given a function value once (`return x.mu.Unlock`)
+							v, _ = p.TypesInfo.Uses[id].(*types.Var)
+							if v != nil && nAssign[v] != 1 {
+								v = nil
+							}
+						case as.Tok == token.DEFINE && id.Name != "_":
+							// `chat, unlock := __rN_0, __rN_1`: a local that takes over such a result and is never assigned again
+							if rid := identOf(ast.Unparen(as.Rhs[i])); rid != nil && strings.HasPrefix(rid.Name, "__r") {
+								v, _ = p.TypesInfo.Defs[id].(*types.Var)
+								if v != nil && nAssign[v] != 0 {
+									v = nil
+								}
+								if v != nil {
+									boundAliasDef[v] = as
+								}
+							}
+						}
+						if v == nil {
+							continue
+						}
+						r := ast.Unparen(as.Rhs[i])
+						if c, ok := r.(*ast.CallExpr); ok && len(c.Args) == 1 {
+							if tv, isT := p.TypesInfo.Types[c.Fun]; isT && tv.IsType() {
+								r = ast.Unparen(c.Args[0])
+							}
+						}
+						if fl, ok := r.(*ast.FuncLit); ok {
+							if as.Tok == token.DEFINE {
+								N.litOf[v] = fl
+							}
+						} else if isFuncValue(p, r) {
+							bound[v] = N.text(r)
+							boundExpr[v] = r
+						} else if rid := identOf(r); rid != nil && (strings.HasPrefix(rid.Name, "__p") || strings.HasPrefix(rid.Name, "__v") || strings.HasPrefix(rid.Name, "__r")) {
+							if w, ok := p.TypesInfo.Uses[rid].(*types.Var); ok {
+								via[v] = w
+								viaExpr[v] = r
+							}
+						}
+					}
+					return true
+				})
+			}
+			for changed := true; changed; {
+				changed = false
+				for v, w := range via {
+					if _, done := bound[v]; done {
+						continue
+					}
+					if t, ok := bound[w]; ok {
+						bound[v] = t
+						boundExpr[v] = viaExpr[v]
+						changed = true
+					}
+				}
 			}
 		}
 		// … or to a named function / method value (`__pN_f := (func(int) bool)(cc.Authorize)`): a call of the parameter is
@@ -2042,11 +2244,30 @@ func normalise(repo string, vocab map[string]bool, decls *refDecls) (*normInfo, 
 			// a binding whose variable is only ever called (besides its `_ = v` marker) is emptied once the calls are
 			// spelled with the function itself, so that the function is not kept alive by the binding alone
 			callUse := map[*ast.Ident]bool{}
+			markerUse := map[*ast.Ident]bool{} // `_ = v` markers and the left-hand side of the binding itself
 			for _, f := range p.Syntax {
 				ast.Inspect(f, func(n ast.Node) bool {
-					if c, ok := n.(*ast.CallExpr); ok {
-						if id, ok := c.Fun.(*ast.Ident); ok {
+					switch x := n.(type) {
+					case *ast.CallExpr:
+						if id, ok := x.Fun.(*ast.Ident); ok {
 							callUse[id] = true
+						}
+					case *ast.AssignStmt:
+						allBlank := true
+						for _, l := range x.Lhs {
+							if id := identOf(l); id == nil || id.Name != "_" {
+								allBlank = false
+							}
+							if id := identOf(l); id != nil {
+								markerUse[id] = true
+							}
+						}
+						if allBlank {
+							for _, r := range x.Rhs {
+								if id := identOf(r); id != nil {
+									markerUse[id] = true
+								}
+							}
 						}
 					}
 					return true
@@ -2058,14 +2279,14 @@ func normalise(repo string, vocab map[string]bool, decls *refDecls) (*normInfo, 
 				if v, ok := o.(*types.Var); ok && boundExpr[v] != nil {
 					if callUse[id] {
 						calls[v]++
-					} else {
+					} else if !markerUse[id] {
 						other[v]++
 					}
 				}
 			}
 			for v, e := range boundExpr {
 				// only once no call of the variable is left (a literal expanded in the same round may still carry one)
-				if v.Pkg() == p.Types && other[v] <= 1 && calls[v] == 0 {
+				if v.Pkg() == p.Types && other[v] == 0 && calls[v] == 0 && boundAliasDef[v] == nil {
 					if _, isNil := e.(*ast.Ident); isNil && e.(*ast.Ident).Name == "nil" {
 						continue
 					}
@@ -2087,6 +2308,15 @@ func normalise(repo string, vocab map[string]bool, decls *refDecls) (*normInfo, 
 					v, _ := p.TypesInfo.Uses[id].(*types.Var)
 					if t, ok := bound[v]; ok && v != nil {
 						fn := N.fset.Position(id.Pos()).Filename
+						if def := boundAliasDef[v]; def != nil && !aliasMarked[v] {
+							// the local keeps a use once its calls are spelled with the function itself
+							aliasMarked[v] = true
+							marker := "; _ = " + v.Name()
+							eo := N.fset.Position(def.End()).Offset
+							if src := N.src(fn); !bytes.HasPrefix(src[eo:], []byte(marker)) {
+								N.edits[fn] = append(N.edits[fn], textEdit{eo, 0, marker})
+							}
+						}
 						N.edits[fn] = append(N.edits[fn], textEdit{N.fset.Position(id.Pos()).Offset, len(id.Name), t})
 						info.Inlined = append(info.Inlined, "bound "+t+" ← "+id.Name)
 					}
@@ -2097,6 +2327,57 @@ func normalise(repo string, vocab map[string]bool, decls *refDecls) (*normInfo, 
 		N.substituteFuncGlobals(pkgs)
 		N.local = localClosures(pkgs)
 		N.resultLit = resultClosures(pkgs)
+		// a function literal bound to a parameter of an expanded helper that calls it more than once: every call is
+		// expanded, and the literal goes once none is left
+		for _, p := range pkgs {
+			if len(N.litOf) == 0 || !strings.HasPrefix(p.PkgPath, "github.com/jhalter/mobius") {
+				continue
+			}
+			callFun := map[*ast.Ident]bool{}
+			markerUse := map[*ast.Ident]bool{}
+			for _, f := range p.Syntax {
+				ast.Inspect(f, func(n ast.Node) bool {
+					switch x := n.(type) {
+					case *ast.CallExpr:
+						if id := identOf(x.Fun); id != nil {
+							callFun[id] = true
+						}
+					case *ast.AssignStmt:
+						allBlank := true
+						for _, l := range x.Lhs {
+							if id := identOf(l); id == nil || id.Name != "_" {
+								allBlank = false
+							}
+						}
+						if allBlank {
+							for _, r := range x.Rhs {
+								if id := identOf(r); id != nil {
+									markerUse[id] = true
+								}
+							}
+						}
+					}
+					return true
+				})
+			}
+			calls, others := map[*types.Var]int{}, map[*types.Var]int{}
+			for id, o := range p.TypesInfo.Uses {
+				if v, ok := o.(*types.Var); ok && N.litOf[v] != nil {
+					switch {
+					case callFun[id]:
+						calls[v]++
+					case markerUse[id]:
+					default:
+						others[v]++
+					}
+				}
+			}
+			for v, lit := range N.litOf {
+				if v.Pkg() == p.Types && calls[v] >= 2 && others[v] == 0 && N.resultLit[v] == nil && N.local[v] == nil {
+					N.resultLit[v] = &localClosure{v: v, lit: lit, uses: calls[v]}
+				}
+			}
+		}
 		// (a round that changed something is always followed by another look: what it wrote may be reducible further)
 		if round == 1 && len(N.cands) == 0 && len(N.litOf) == 0 && len(N.edits) == 0 && len(N.local) == 0 && len(N.resultLit) == 0 && !hasClosureTables(pkgs) {
 			break
@@ -2122,7 +2403,7 @@ func normalise(repo string, vocab map[string]bool, decls *refDecls) (*normInfo, 
 							} else if len(fd.Body.List) > 0 && s == fd.Body.List[len(fd.Body.List)-1] && (fd.Type.Results == nil || len(fd.Type.Results.List) == 0) {
 								N.lastOfBody = true
 							}
-							if N.splitIfInit(p, s) || N.switchToIf(p, s) || N.unrollTable(p, f, fd, list, i) {
+							if N.splitIfInit(p, s) || N.switchToIf(p, s) || N.unrollTable(p, f, fd, list, i) || N.unrollFuncList(p, f, fd, list, i) || N.unrollArrayRange(p, f, fd, list, i) || N.expandRangeFunc(p, f, fd, s) || N.wrapGoCall(p, f, fd, s) || N.wrapMethodValue(p, f, fd, s) {
 								continue
 							}
 							if call, dd, recv := N.firstEligibleCall(p, s); call != nil {
@@ -2131,6 +2412,8 @@ func normalise(repo string, vocab map[string]bool, decls *refDecls) (*normInfo, 
 								} else {
 									left[dd.name+" in "+declName(p, fd)+": "+why] = true
 								}
+							} else if N.inlineExprCall(p, f, fd, s) {
+								continue
 							}
 							walkStmt(s)
 						}
@@ -2258,6 +2541,11 @@ func normalise(repo string, vocab map[string]bool, decls *refDecls) (*normInfo, 
 		}
 		sort.Strings(info.Left)
 		if len(N.edits) == 0 {
+			if innermostFirst && N.skipped > 0 {
+				// what was waited for cannot be expanded: the rest is expanded as it stands
+				innermostFirst = false
+				continue
+			}
 			break
 		}
 		info.Rounds = round
@@ -2402,4 +2690,939 @@ func fixUnusedImports(dir, errText string) bool {
 		}
 	}
 	return fixed
+}
+
+// expandRangeFunc: `for k, v := range F(args) { BODY }` where F is a function outside the vocabulary whose body is
+// `return func(yield func(…) bool) { ITER }` and ITER hands out its elements only as `if !yield(e…) { return }`.
+// The loop is written as ITER with BODY in the place of every such statement (k, v bound to e…); a `continue` of the
+// loop leaves that copy of BODY, a `break` of the loop (and the iterator's own `return`) leaves the whole thing.
+// Everything ITER and F declare gets a name of its own, so that BODY's names keep their meaning.
+func (N *normaliser) expandRangeFunc(p *packages.Package, file *ast.File, fd *ast.FuncDecl, s ast.Stmt) bool {
+	rs, ok := s.(*ast.RangeStmt)
+	if !ok {
+		return false
+	}
+	call, ok := ast.Unparen(rs.X).(*ast.CallExpr)
+	if !ok {
+		return false
+	}
+	o, recvExpr := N.staticCallee(p, call)
+	c, isCand := N.cands[o]
+	if o == nil || !isCand || len(c.fd.Body.List) != 1 {
+		return false
+	}
+	ret, ok := c.fd.Body.List[0].(*ast.ReturnStmt)
+	if !ok || len(ret.Results) != 1 {
+		return false
+	}
+	lit, ok := ast.Unparen(ret.Results[0]).(*ast.FuncLit)
+	if !ok || lit.Type.Params == nil || len(lit.Type.Params.List) != 1 || len(lit.Type.Params.List[0].Names) != 1 {
+		return false
+	}
+	yieldObj := c.pkg.TypesInfo.Defs[lit.Type.Params.List[0].Names[0]]
+	sig := o.Type().(*types.Signature)
+	if sig.Variadic() || len(call.Args) != sig.Params().Len() {
+		return false
+	}
+	// the yield statements
+	type ysite struct {
+		st   ast.Stmt
+		args []ast.Expr
+		pre  ast.Expr // `if pre && !yield(…)`
+	}
+	var sites []ysite
+	okIter := true
+	ast.Inspect(lit.Body, func(n ast.Node) bool {
+		switch x := n.(type) {
+		case *ast.FuncLit:
+			return false
+		case *ast.IfStmt:
+			cond, pre := x.Cond, ast.Expr(nil)
+			if b, isB := cond.(*ast.BinaryExpr); isB && b.Op == token.LAND {
+				cond, pre = b.Y, b.X
+			}
+			if u, isU := cond.(*ast.UnaryExpr); isU && u.Op == token.NOT && x.Init == nil && x.Else == nil && len(x.Body.List) == 1 {
+				if yc, isC := u.X.(*ast.CallExpr); isC {
+					if id, isID := yc.Fun.(*ast.Ident); isID && c.pkg.TypesInfo.Uses[id] == yieldObj {
+						if r, isR := x.Body.List[0].(*ast.ReturnStmt); isR && len(r.Results) == 0 {
+							usesYield := false
+							if pre != nil {
+								ast.Inspect(pre, func(m ast.Node) bool {
+									if mid, ok := m.(*ast.Ident); ok && c.pkg.TypesInfo.Uses[mid] == yieldObj {
+										usesYield = true
+									}
+									return true
+								})
+							}
+							if !usesYield {
+								sites = append(sites, ysite{x, yc.Args, pre})
+								return false
+							}
+						}
+					}
+				}
+			}
+		case *ast.ExprStmt:
+			if yc, isC := x.X.(*ast.CallExpr); isC {
+				if id, isID := yc.Fun.(*ast.Ident); isID && c.pkg.TypesInfo.Uses[id] == yieldObj {
+					sites = append(sites, ysite{x, yc.Args, nil})
+					return false
+				}
+			}
+		case *ast.Ident:
+			if c.pkg.TypesInfo.Uses[x] == yieldObj {
+				okIter = false // yield used in another way
+			}
+		case *ast.DeferStmt, *ast.GoStmt:
+			okIter = false
+		}
+		return okIter
+	})
+	if !okIter || len(sites) == 0 {
+		return false
+	}
+	// BODY: no labels, no goto; its own break / continue are redirected
+	okBody := true
+	var bodyEdits []textEdit
+	off := func(pos token.Pos) int { return N.fset.Position(pos).Offset }
+	N.seq++
+	id := N.seq
+	var scan func(n ast.Node, inLoop, inSwitch bool)
+	scan = func(n ast.Node, inLoop, inSwitch bool) {
+		ast.Inspect(n, func(m ast.Node) bool {
+			if m == nil || !okBody {
+				return false
+			}
+			switch x := m.(type) {
+			case *ast.FuncLit:
+				return false
+			case *ast.LabeledStmt:
+				okBody = false
+			case *ast.ForStmt:
+				scan(x.Body, true, inSwitch)
+				return false
+			case *ast.RangeStmt:
+				if m != n {
+					scan(x.Body, true, inSwitch)
+					return false
+				}
+			case *ast.SwitchStmt:
+				scan(x.Body, inLoop, true)
+				return false
+			case *ast.TypeSwitchStmt:
+				scan(x.Body, inLoop, true)
+				return false
+			case *ast.SelectStmt:
+				scan(x.Body, inLoop, true)
+				return false
+			case *ast.BranchStmt:
+				switch {
+				case x.Tok == token.GOTO || x.Label != nil && x.Tok != token.BREAK && x.Tok != token.CONTINUE:
+					okBody = false
+				case x.Label != nil:
+					// a label outside the loop keeps its meaning
+				case x.Tok == token.CONTINUE && !inLoop:
+					bodyEdits = append(bodyEdits, textEdit{off(x.Pos()), off(x.End()) - off(x.Pos()), fmt.Sprintf("break __LC%d", id)})
+				case x.Tok == token.BREAK && !inLoop && !inSwitch:
+					bodyEdits = append(bodyEdits, textEdit{off(x.Pos()), off(x.End()) - off(x.Pos()), fmt.Sprintf("break __LR%d", id)})
+				}
+			}
+			return true
+		})
+	}
+	scan(rs.Body, false, false)
+	if !okBody {
+		return false
+	}
+	callerFile := N.fset.Position(rs.Pos()).Filename
+	csrc := N.src(callerFile)
+	bodyText := applyEdits(csrc[off(rs.Body.Lbrace):off(rs.Body.Rbrace)+1], bodyEdits, off(rs.Body.Lbrace))
+	// names: receiver, parameters of F and everything ITER declares
+	d := &calleeDesc{name: c.name, pkg: c.pkg, ftype: c.fd.Type, recv: c.fd.Recv, body: c.fd.Body, sig: sig, fn: o}
+	rename := map[types.Object]string{}
+	var lhs, rhs []string
+	if c.fd.Recv != nil && len(c.fd.Recv.List) > 0 && len(c.fd.Recv.List[0].Names) > 0 {
+		if recvExpr == nil {
+			return false
+		}
+		rid := c.fd.Recv.List[0].Names[0]
+		nn := fmt.Sprintf("__p%d_%s", id, rid.Name)
+		rename[c.pkg.TypesInfo.Defs[rid]] = nn
+		rt := sig.Recv().Type()
+		et := p.TypesInfo.TypeOf(recvExpr)
+		_, rptr := rt.(*types.Pointer)
+		_, eptr := et.Underlying().(*types.Pointer)
+		rx := N.text(recvExpr)
+		switch {
+		case rptr && !eptr:
+			rx = "&(" + rx + ")"
+		case !rptr && eptr:
+			rx = "*(" + rx + ")"
+		}
+		lhs, rhs = append(lhs, nn), append(rhs, rx)
+	}
+	k := 0
+	if c.fd.Type.Params != nil {
+		for _, f := range c.fd.Type.Params.List {
+			for _, nm := range f.Names {
+				nn := fmt.Sprintf("__p%d_%s", id, nm.Name)
+				rename[c.pkg.TypesInfo.Defs[nm]] = nn
+				lhs = append(lhs, nn)
+				rhs = append(rhs, "("+N.typeText(p, file, sig.Params().At(k).Type())+")("+N.text(call.Args[k])+")")
+				k++
+			}
+			if len(f.Names) == 0 {
+				k++
+			}
+		}
+	}
+	ast.Inspect(lit.Body, func(n ast.Node) bool {
+		if idn, ok := n.(*ast.Ident); ok {
+			if def := c.pkg.TypesInfo.Defs[idn]; def != nil && idn.Name != "_" {
+				if _, isVar := def.(*types.Var); isVar {
+					rename[def] = fmt.Sprintf("__i%d_%s", id, idn.Name)
+				}
+			}
+		}
+		return true
+	})
+	// ITER with renames and the yield statements replaced
+	capture := ""
+	var iedits []textEdit
+	isSite := map[ast.Stmt]int{}
+	for i, ys := range sites {
+		isSite[ys.st] = i
+	}
+	iterFile := N.fset.Position(lit.Pos()).Filename
+	isrc := N.src(iterFile)
+	var walk func(n ast.Node) bool
+	walk = func(n ast.Node) bool {
+		if st, isSt := n.(ast.Stmt); isSt {
+			if i, isS := isSite[st]; isS {
+				x := st
+				var sb strings.Builder
+				if sites[i].pre != nil {
+					sb.WriteString("if " + N.rewriteExpr(p, file, d, rename, sites[i].pre, rs.Pos(), &capture) + " ")
+				}
+				sb.WriteString("{ ")
+				var vars []ast.Expr
+				if rs.Key != nil {
+					vars = append(vars, rs.Key)
+				}
+				if rs.Value != nil {
+					vars = append(vars, rs.Value)
+				}
+				var names, vals, marks []string
+				allBlank := true
+				for _, v := range vars {
+					vt := string(csrc[off(v.Pos()):off(v.End())])
+					names = append(names, vt)
+					if vt != "_" {
+						allBlank = false
+						marks = append(marks, vt)
+					}
+				}
+				for _, a := range sites[i].args {
+					vals = append(vals, N.rewriteExpr(p, file, d, rename, a, rs.Pos(), &capture))
+				}
+				if len(vals) == 1 && len(names) < 2 && sig.Results().Len() == 1 {
+					// one value per element, or a pair of which the loop takes the first
+					if tup, isTup := c.pkg.TypesInfo.TypeOf(sites[i].args[0]).(*types.Tuple); isTup {
+						for len(names) < tup.Len() {
+							names = append(names, "_")
+						}
+					}
+				}
+				for len(names) < len(vals) {
+					names = append(names, "_")
+				}
+				if len(names) > len(vals) && len(vals) != 1 {
+					capture = "range variables and yield arguments do not match"
+				}
+				op := " := "
+				if rs.Tok == token.ASSIGN || allBlank {
+					op = " = "
+				}
+				if len(names) > 0 {
+					sb.WriteString(strings.Join(names, ", ") + op + strings.Join(vals, ", ") + "; ")
+				}
+				if rs.Tok == token.DEFINE {
+					for _, m := range marks {
+						sb.WriteString("_ = " + m + "; ")
+					}
+				}
+				bt := strings.ReplaceAll(bodyText, fmt.Sprintf("__LC%d", id), fmt.Sprintf("__LC%d_%d", id, i))
+				fmt.Fprintf(&sb, "\n__LC%d_%d: switch { default: %s; break __LC%d_%d }\n}", id, i, bt, id, i)
+				iedits = append(iedits, textEdit{off(x.Pos()), off(x.End()) - off(x.Pos()), sb.String()})
+				return false
+			}
+		}
+		switch x := n.(type) {
+		case *ast.ReturnStmt:
+			iedits = append(iedits, textEdit{off(x.Pos()), off(x.End()) - off(x.Pos()), fmt.Sprintf("break __LR%d", id)})
+			return false
+		case *ast.FuncLit:
+			ast.Inspect(x.Body, func(m ast.Node) bool {
+				if idn, ok := m.(*ast.Ident); ok {
+					N.identEdit(p, file, d, rename, idn, rs.Pos(), &iedits, &capture)
+				}
+				return true
+			})
+			return false
+		case *ast.LabeledStmt:
+			capture = "label in iterator"
+		case *ast.Ident:
+			N.identEdit(p, file, d, rename, x, rs.Pos(), &iedits, &capture)
+		}
+		return true
+	}
+	ast.Inspect(lit.Body, walk)
+	if capture != "" {
+		return false
+	}
+	iterText := applyEdits(isrc[off(lit.Body.Lbrace)+1:off(lit.Body.Rbrace)], iedits, off(lit.Body.Lbrace)+1)
+	var sb strings.Builder
+	if len(lhs) > 0 {
+		blank := make([]string, len(lhs))
+		for i := range blank {
+			blank[i] = "_"
+		}
+		fmt.Fprintf(&sb, "%s := %s; %s = %s; ", strings.Join(lhs, ", "), strings.Join(rhs, ", "), strings.Join(blank, ", "), strings.Join(lhs, ", "))
+	}
+	fmt.Fprintf(&sb, "\n__LR%d: switch { default:\n%s\nbreak __LR%d }\n", id, iterText, id)
+	N.edits[callerFile] = append(N.edits[callerFile], textEdit{off(rs.Pos()), off(rs.End()) - off(rs.Pos()), sb.String()})
+	callerName := "?"
+	if fd != nil {
+		callerName = declName(p, fd)
+	}
+	N.info.Inlined = append(N.info.Inlined, "iterator "+c.name+" ← "+callerName)
+	return true
+}
+
+// simpleOperand: an expression without effects whose value does not depend on when it is evaluated within one
+// statement — names, field chains, literals, addresses and conversions of those.
+func simpleOperand(pkg *packages.Package, e ast.Expr) bool {
+	switch x := e.(type) {
+	case *ast.Ident, *ast.BasicLit:
+		return true
+	case *ast.ParenExpr:
+		return simpleOperand(pkg, x.X)
+	case *ast.SelectorExpr:
+		if _, isPkg := pkg.TypesInfo.Uses[identOf(x.X)].(*types.PkgName); isPkg {
+			return true
+		}
+		return simpleOperand(pkg, x.X)
+	case *ast.UnaryExpr:
+		return (x.Op == token.AND || x.Op == token.NOT || x.Op == token.SUB) && simpleOperand(pkg, x.X)
+	case *ast.StarExpr:
+		return simpleOperand(pkg, x.X)
+	case *ast.CallExpr:
+		if tv, ok := pkg.TypesInfo.Types[x.Fun]; ok && tv.IsType() && len(x.Args) == 1 {
+			return simpleOperand(pkg, x.Args[0])
+		}
+	}
+	return false
+}
+
+func identOf(e ast.Expr) *ast.Ident {
+	id, _ := e.(*ast.Ident)
+	return id
+}
+
+// inlineExprCall: a call of a function outside the vocabulary that sits in a conditionally evaluated operand
+// (`a || f(x)`), where it cannot be hoisted in front of the statement. When the function's body is one
+// `return EXPR` and the call's operands are simple, the call is replaced by EXPR with the operands in the place of
+// the parameters.
+func (N *normaliser) inlineExprCall(p *packages.Package, file *ast.File, fd *ast.FuncDecl, s ast.Stmt) bool {
+	done := false
+	var visit func(n ast.Node, cond bool)
+	visit = func(n ast.Node, cond bool) {
+		if n == nil || done {
+			return
+		}
+		switch x := n.(type) {
+		case *ast.FuncLit, *ast.BlockStmt:
+			return
+		case *ast.BinaryExpr:
+			if x.Op == token.LAND || x.Op == token.LOR {
+				visit(x.X, cond)
+				visit(x.Y, true)
+				return
+			}
+		case *ast.CallExpr:
+			if cond && N.tryInlineExpr(p, file, fd, x) {
+				done = true
+				return
+			}
+		}
+		ast.Inspect(n, func(m ast.Node) bool {
+			if m == n {
+				return true
+			}
+			if m == nil || done {
+				return false
+			}
+			switch m.(type) {
+			case *ast.FuncLit, *ast.BlockStmt, *ast.BinaryExpr, *ast.CallExpr:
+				visit(m, cond)
+				return false
+			}
+			return true
+		})
+	}
+	switch x := s.(type) {
+	case *ast.IfStmt:
+		if x.Init != nil {
+			return false
+		}
+		visit(x.Cond, false)
+	case *ast.ExprStmt, *ast.AssignStmt, *ast.ReturnStmt:
+		visit(s, false)
+	}
+	return done
+}
+
+func (N *normaliser) tryInlineExpr(p *packages.Package, file *ast.File, fd *ast.FuncDecl, call *ast.CallExpr) bool {
+	o, recvExpr := N.staticCallee(p, call)
+	c, isCand := N.cands[o]
+	if o == nil || !isCand || len(c.fd.Body.List) != 1 {
+		return false
+	}
+	ret, ok := c.fd.Body.List[0].(*ast.ReturnStmt)
+	if !ok || len(ret.Results) != 1 {
+		return false
+	}
+	sig := o.Type().(*types.Signature)
+	if sig.Variadic() || sig.TypeParams().Len() > 0 || sig.Results().Len() != 1 || len(call.Args) != sig.Params().Len() {
+		return false
+	}
+	hasLit := false
+	ast.Inspect(ret.Results[0], func(n ast.Node) bool {
+		if _, isL := n.(*ast.FuncLit); isL {
+			hasLit = true
+		}
+		return true
+	})
+	if hasLit {
+		return false
+	}
+	d := &calleeDesc{name: c.name, pkg: c.pkg, ftype: c.fd.Type, recv: c.fd.Recv, body: c.fd.Body, sig: sig, fn: o}
+	rename := map[types.Object]string{}
+	if c.fd.Recv != nil && len(c.fd.Recv.List) > 0 && len(c.fd.Recv.List[0].Names) > 0 {
+		if recvExpr == nil || !simpleOperand(p, recvExpr) {
+			return false
+		}
+		rt := sig.Recv().Type()
+		et := p.TypesInfo.TypeOf(recvExpr)
+		_, rptr := rt.(*types.Pointer)
+		_, eptr := et.Underlying().(*types.Pointer)
+		rx := "(" + N.text(recvExpr) + ")"
+		switch {
+		case rptr && !eptr:
+			rx = "(&" + rx + ")"
+		case !rptr && eptr:
+			rx = "(*" + rx + ")"
+		}
+		rename[c.pkg.TypesInfo.Defs[c.fd.Recv.List[0].Names[0]]] = rx
+	}
+	k := 0
+	if c.fd.Type.Params != nil {
+		for _, f := range c.fd.Type.Params.List {
+			for _, nm := range f.Names {
+				if !simpleOperand(p, call.Args[k]) {
+					return false
+				}
+				rename[c.pkg.TypesInfo.Defs[nm]] = "((" + N.typeText(p, file, sig.Params().At(k).Type()) + ")(" + N.text(call.Args[k]) + "))"
+				k++
+			}
+			if len(f.Names) == 0 {
+				if !simpleOperand(p, call.Args[k]) {
+					return false
+				}
+				k++
+			}
+		}
+	}
+	// a parameter that the expression assigns to or takes the address of is a variable of its own
+	bad := false
+	ast.Inspect(ret.Results[0], func(n ast.Node) bool {
+		if u, isU := n.(*ast.UnaryExpr); isU && u.Op == token.AND {
+			if id := identOf(ast.Unparen(u.X)); id != nil {
+				if _, isP := rename[c.pkg.TypesInfo.Uses[id]]; isP {
+					bad = true
+				}
+			}
+		}
+		return true
+	})
+	if bad {
+		return false
+	}
+	capture := ""
+	text := N.rewriteExpr(p, file, d, rename, ret.Results[0], call.Pos(), &capture)
+	if capture != "" {
+		return false
+	}
+	fn := N.fset.Position(call.Pos()).Filename
+	so, eo := N.fset.Position(call.Pos()).Offset, N.fset.Position(call.End()).Offset
+	N.edits[fn] = append(N.edits[fn], textEdit{so, eo - so, "((" + N.typeText(p, file, sig.Results().At(0).Type()) + ")(" + text + "))"})
+	callerName := "?"
+	if fd != nil {
+		callerName = declName(p, fd)
+	}
+	N.info.Inlined = append(N.info.Inlined, "expression "+c.name+" ← "+callerName)
+	return true
+}
+
+// wrapGoCall: `go f(args)` where f is a function outside the vocabulary becomes `go func(p…) { f(p…) }(args)`; the call
+// inside the literal is then expanded like any other, so that the rules see what the goroutine does.
+func (N *normaliser) wrapGoCall(p *packages.Package, file *ast.File, fd *ast.FuncDecl, s ast.Stmt) bool {
+	gs, ok := s.(*ast.GoStmt)
+	if !ok {
+		return false
+	}
+	o, recvExpr := N.staticCallee(p, gs.Call)
+	if _, isCand := N.cands[o]; o == nil || !isCand {
+		return false
+	}
+	sig := o.Type().(*types.Signature)
+	if sig.Variadic() || sig.TypeParams().Len() > 0 || sig.RecvTypeParams().Len() > 0 || len(gs.Call.Args) != sig.Params().Len() {
+		return false
+	}
+	N.seq++
+	id := N.seq
+	var params, names, args []string
+	callee := N.text(gs.Call.Fun)
+	if sig.Recv() != nil {
+		sel, isSel := ast.Unparen(gs.Call.Fun).(*ast.SelectorExpr)
+		if !isSel || recvExpr == nil {
+			return false
+		}
+		rt := p.TypesInfo.TypeOf(recvExpr)
+		if rt == nil {
+			return false
+		}
+		rn := fmt.Sprintf("__g%d_recv", id)
+		params = append(params, rn+" "+N.typeText(p, file, rt))
+		args = append(args, N.text(recvExpr))
+		callee = rn + "." + sel.Sel.Name
+	}
+	for i := 0; i < sig.Params().Len(); i++ {
+		if _, isTup := p.TypesInfo.TypeOf(gs.Call.Args[i]).(*types.Tuple); isTup {
+			return false
+		}
+		n := fmt.Sprintf("__g%d_%d", id, i)
+		params = append(params, n+" "+N.typeText(p, file, sig.Params().At(i).Type()))
+		names = append(names, n)
+		args = append(args, N.text(gs.Call.Args[i]))
+	}
+	fn := N.fset.Position(gs.Pos()).Filename
+	so, eo := N.fset.Position(gs.Call.Pos()).Offset, N.fset.Position(gs.Call.End()).Offset
+	t := "func(" + strings.Join(params, ", ") + ") { " + callee + "(" + strings.Join(names, ", ") + ") }(" + strings.Join(args, ", ") + ")"
+	N.edits[fn] = append(N.edits[fn], textEdit{so, eo - so, t})
+	callerName := "?"
+	if fd != nil {
+		callerName = declName(p, fd)
+	}
+	N.info.Inlined = append(N.info.Inlined, "go "+o.Name()+" ← "+callerName)
+	return true
+}
+
+// unrollFuncList: `for _, f := range []func(…) T{a.m1, a.m2, g} { BODY }` with f used in BODY only as the function of
+// calls and nothing in BODY leaving or restarting the loop: one copy of BODY per element, with the element in the
+// place of f. Elements are named functions, function literals, or methods with pointer receivers bound to a plain
+// variable (binding such a method value early or late is the same).
+func (N *normaliser) unrollFuncList(p *packages.Package, file *ast.File, fd *ast.FuncDecl, list []ast.Stmt, i int) bool {
+	rs, ok := list[i].(*ast.RangeStmt)
+	if !ok || rs.Value == nil || rs.Tok != token.DEFINE {
+		return false
+	}
+	if rs.Key != nil {
+		if k := identOf(rs.Key); k == nil || k.Name != "_" {
+			return false
+		}
+	}
+	vid := identOf(rs.Value)
+	if vid == nil {
+		return false
+	}
+	vobj := p.TypesInfo.Defs[vid]
+	var lit *ast.CompositeLit
+	var def *ast.AssignStmt
+	switch x := ast.Unparen(rs.X).(type) {
+	case *ast.CompositeLit:
+		lit = x
+	case *ast.Ident:
+		tv, _ := p.TypesInfo.Uses[x].(*types.Var)
+		if tv == nil || i == 0 {
+			return false
+		}
+		as, isAs := list[i-1].(*ast.AssignStmt)
+		if !isAs || as.Tok != token.DEFINE || len(as.Lhs) != 1 || len(as.Rhs) != 1 {
+			return false
+		}
+		if id := identOf(as.Lhs[0]); id == nil || p.TypesInfo.Defs[id] != types.Object(tv) {
+			return false
+		}
+		uses := 0
+		for _, o := range p.TypesInfo.Uses {
+			if o == types.Object(tv) {
+				uses++
+			}
+		}
+		cl, isCL := as.Rhs[0].(*ast.CompositeLit)
+		if uses != 1 || !isCL {
+			return false
+		}
+		lit, def = cl, as
+	default:
+		return false
+	}
+	var elemT types.Type
+	switch t := p.TypesInfo.TypeOf(lit).Underlying().(type) {
+	case *types.Slice:
+		elemT = t.Elem()
+	case *types.Array:
+		elemT = t.Elem()
+	default:
+		return false
+	}
+	if _, isSig := elemT.Underlying().(*types.Signature); !isSig || len(lit.Elts) == 0 || len(lit.Elts) > 8 {
+		return false
+	}
+	for _, el := range lit.Elts {
+		switch x := ast.Unparen(el).(type) {
+		case *ast.FuncLit:
+		case *ast.Ident:
+			if _, isF := p.TypesInfo.Uses[x].(*types.Func); !isF {
+				return false
+			}
+		case *ast.SelectorExpr:
+			sel, has := p.TypesInfo.Selections[x]
+			if !has {
+				if _, isF := p.TypesInfo.Uses[x.Sel].(*types.Func); !isF {
+					return false
+				}
+				break
+			}
+			f, isF := sel.Obj().(*types.Func)
+			if !isF || sel.Kind() != types.MethodVal || !simpleOperand(p, x.X) {
+				return false
+			}
+			if _, isPtr := f.Type().(*types.Signature).Recv().Type().(*types.Pointer); !isPtr {
+				return false
+			}
+		default:
+			return false
+		}
+	}
+	okBody := true
+	callFun := map[*ast.Ident]bool{}
+	var uses []*ast.Ident
+	ast.Inspect(rs.Body, func(n ast.Node) bool {
+		switch x := n.(type) {
+		case *ast.LabeledStmt:
+			okBody = false
+		case *ast.BranchStmt:
+			okBody = false
+		case *ast.CallExpr:
+			if id := identOf(x.Fun); id != nil {
+				callFun[id] = true
+			}
+		case *ast.Ident:
+			if p.TypesInfo.Uses[x] == vobj {
+				if !callFun[x] {
+					okBody = false
+				}
+				uses = append(uses, x)
+			}
+		}
+		return okBody
+	})
+	if !okBody || len(uses) == 0 {
+		return false
+	}
+	fn := N.fset.Position(rs.Pos()).Filename
+	src := N.src(fn)
+	off := func(pos token.Pos) int { return N.fset.Position(pos).Offset }
+	bs, be := off(rs.Body.Lbrace), off(rs.Body.Rbrace)+1
+	var sb strings.Builder
+	for _, el := range lit.Elts {
+		var eds []textEdit
+		for _, u := range uses {
+			eds = append(eds, textEdit{off(u.Pos()), len(u.Name), "(" + string(src[off(el.Pos()):off(el.End())]) + ")"})
+		}
+		sb.WriteString(applyEdits(src[bs:be], eds, bs))
+		sb.WriteString("\n")
+	}
+	start := off(rs.Pos())
+	if def != nil {
+		start = off(def.Pos())
+	}
+	N.edits[fn] = append(N.edits[fn], textEdit{start, off(rs.End()) - start, sb.String()})
+	N.info.Inlined = append(N.info.Inlined, "function list loop written out at "+N.fset.Position(rs.Pos()).String())
+	return true
+}
+
+// ifaceParamOnlyCalled: parameter n of d has an interface type, the argument has another (named) type, and every use
+// of the parameter in the body is as the receiver of a method call.
+func (N *normaliser) ifaceParamOnlyCalled(pkg *packages.Package, d *calleeDesc, n *ast.Ident, pt types.Type, arg ast.Expr) bool {
+	if n == nil || n.Name == "_" {
+		return false
+	}
+	if _, isIface := pt.Underlying().(*types.Interface); !isIface {
+		return false
+	}
+	at := pkg.TypesInfo.TypeOf(arg)
+	if at == nil || types.Identical(at, pt) {
+		return false
+	}
+	if _, isNamed := at.(*types.Named); !isNamed {
+		if p, isP := at.(*types.Pointer); !isP {
+			return false
+		} else if _, isNamed := p.Elem().(*types.Named); !isNamed {
+			return false
+		}
+	}
+	if b, isB := at.Underlying().(*types.Basic); isB && b.Info()&types.IsUntyped != 0 {
+		return false
+	}
+	obj := d.pkg.TypesInfo.Defs[n]
+	if obj == nil {
+		return false
+	}
+	recvUse := map[*ast.Ident]bool{}
+	ast.Inspect(d.body, func(m ast.Node) bool {
+		if c, ok := m.(*ast.CallExpr); ok {
+			if sel, ok := ast.Unparen(c.Fun).(*ast.SelectorExpr); ok {
+				if id := identOf(sel.X); id != nil {
+					recvUse[id] = true
+				}
+			}
+		}
+		return true
+	})
+	ok, uses := true, 0
+	ast.Inspect(d.body, func(m ast.Node) bool {
+		if id, isID := m.(*ast.Ident); isID && d.pkg.TypesInfo.Uses[id] == obj {
+			uses++
+			if !recvUse[id] {
+				ok = false
+			}
+		}
+		return true
+	})
+	return ok && uses > 0
+}
+
+// wrapMethodValue: a method of a type outside the vocabulary used as a value (`filepath.Walk(root, dl.visit)`) with a
+// plain variable as receiver is written as the function literal that calls it; the call inside is then expanded
+// like any other.
+func (N *normaliser) wrapMethodValue(p *packages.Package, file *ast.File, fd *ast.FuncDecl, s ast.Stmt) bool {
+	isFun := map[ast.Expr]bool{}
+	done := false
+	ast.Inspect(s, func(n ast.Node) bool {
+		if done {
+			return false
+		}
+		switch x := n.(type) {
+		case *ast.BlockStmt:
+			return n == ast.Node(s)
+		case *ast.FuncLit:
+			return false
+		case *ast.CallExpr:
+			isFun[ast.Unparen(x.Fun)] = true
+		case *ast.SelectorExpr:
+			if isFun[x] {
+				return true
+			}
+			sel, has := p.TypesInfo.Selections[x]
+			if !has || sel.Kind() != types.MethodVal || len(sel.Index()) != 1 {
+				return true
+			}
+			o, isF := sel.Obj().(*types.Func)
+			if !isF {
+				return true
+			}
+			if _, isCand := N.cands[o]; !isCand {
+				return true
+			}
+			rid := identOf(x.X)
+			if rid == nil {
+				return true
+			}
+			if v, isV := p.TypesInfo.Uses[rid].(*types.Var); !isV || v.IsField() || v.Parent() == p.Types.Scope() {
+				return true
+			}
+			sig := o.Type().(*types.Signature)
+			if sig.Variadic() || sig.RecvTypeParams().Len() > 0 {
+				return true
+			}
+			if _, isPtr := sig.Recv().Type().(*types.Pointer); !isPtr {
+				return true // a value receiver is copied when the method value is made
+			}
+			N.seq++
+			id := N.seq
+			var params, names []string
+			for i := 0; i < sig.Params().Len(); i++ {
+				nm := fmt.Sprintf("__m%d_%d", id, i)
+				params = append(params, nm+" "+N.typeText(p, file, sig.Params().At(i).Type()))
+				names = append(names, nm)
+			}
+			res := ""
+			ret := ""
+			switch sig.Results().Len() {
+			case 0:
+			case 1:
+				res = " " + N.typeText(p, file, sig.Results().At(0).Type())
+				ret = "return "
+			default:
+				var rs []string
+				for i := 0; i < sig.Results().Len(); i++ {
+					rs = append(rs, N.typeText(p, file, sig.Results().At(i).Type()))
+				}
+				res = " (" + strings.Join(rs, ", ") + ")"
+				ret = "return "
+			}
+			fn := N.fset.Position(x.Pos()).Filename
+			so, eo := N.fset.Position(x.Pos()).Offset, N.fset.Position(x.End()).Offset
+			t := "func(" + strings.Join(params, ", ") + ")" + res + " { " + ret + N.text(x) + "(" + strings.Join(names, ", ") + ") }"
+			N.edits[fn] = append(N.edits[fn], textEdit{so, eo - so, t})
+			N.info.Inlined = append(N.info.Inlined, "method value "+o.Name()+" written as a literal at "+N.fset.Position(x.Pos()).String())
+			done = true
+			return false
+		}
+		return true
+	})
+	return done
+}
+
+// unrollArrayRange: `for i, v := range A { BODY }` over a local array variable of at most eight elements that the
+// statement right before the loop defines by a composite literal and that nothing assigns to or takes the address
+// of: one copy of BODY per element, with i and v bound to the index and to A[index]. Nothing in BODY may leave or
+// restart the loop (break, continue, goto, labels); a return stays a return.
+func (N *normaliser) unrollArrayRange(p *packages.Package, file *ast.File, fd *ast.FuncDecl, list []ast.Stmt, i int) bool {
+	rs, ok := list[i].(*ast.RangeStmt)
+	if !ok || rs.Tok != token.DEFINE || fd == nil {
+		return false
+	}
+	aid := identOf(ast.Unparen(rs.X))
+	if aid == nil {
+		return false
+	}
+	av, _ := p.TypesInfo.Uses[aid].(*types.Var)
+	if av == nil || av.IsField() || av.Parent() == p.Types.Scope() {
+		return false
+	}
+	arr, isArr := av.Type().Underlying().(*types.Array)
+	if !isArr || arr.Len() == 0 || arr.Len() > 8 {
+		return false
+	}
+	// defined by a composite literal in this list, before the loop
+	defined := false
+	for _, st := range list[:i] {
+		if as, isAs := st.(*ast.AssignStmt); isAs && as.Tok == token.DEFINE && len(as.Lhs) == len(as.Rhs) {
+			for k, l := range as.Lhs {
+				if id := identOf(l); id != nil && p.TypesInfo.Defs[id] == types.Object(av) {
+					if _, isCL := ast.Unparen(as.Rhs[k]).(*ast.CompositeLit); isCL {
+						defined = true
+					}
+				}
+			}
+		}
+	}
+	if !defined {
+		return false
+	}
+	// never assigned (whole or by element), never addressed, never sliced
+	okVar := true
+	ast.Inspect(fd.Body, func(n ast.Node) bool {
+		switch x := n.(type) {
+		case *ast.AssignStmt:
+			if x.Tok == token.DEFINE {
+				return true
+			}
+			for _, l := range x.Lhs {
+				e := ast.Unparen(l)
+				if ix, isIx := e.(*ast.IndexExpr); isIx {
+					e = ast.Unparen(ix.X)
+				}
+				if id := identOf(e); id != nil && p.TypesInfo.Uses[id] == types.Object(av) {
+					okVar = false
+				}
+			}
+		case *ast.IncDecStmt:
+			if ix, isIx := ast.Unparen(x.X).(*ast.IndexExpr); isIx {
+				if id := identOf(ast.Unparen(ix.X)); id != nil && p.TypesInfo.Uses[id] == types.Object(av) {
+					okVar = false
+				}
+			}
+		case *ast.UnaryExpr:
+			if x.Op == token.AND {
+				e := ast.Unparen(x.X)
+				if ix, isIx := e.(*ast.IndexExpr); isIx {
+					e = ast.Unparen(ix.X)
+				}
+				if id := identOf(e); id != nil && p.TypesInfo.Uses[id] == types.Object(av) {
+					okVar = false
+				}
+			}
+		case *ast.SliceExpr:
+			if id := identOf(ast.Unparen(x.X)); id != nil && p.TypesInfo.Uses[id] == types.Object(av) {
+				okVar = false
+			}
+		}
+		return okVar
+	})
+	if !okVar {
+		return false
+	}
+	okBody := true
+	var ownLabels []string
+	ast.Inspect(rs.Body, func(n ast.Node) bool {
+		switch x := n.(type) {
+		case *ast.FuncLit:
+			return false
+		case *ast.LabeledStmt:
+			// the labels of expansions get a name of their own in every copy
+			if !strings.HasPrefix(x.Label.Name, "__L") {
+				okBody = false
+			}
+			ownLabels = append(ownLabels, x.Label.Name)
+		case *ast.BranchStmt:
+			// (a break to a label outside the loop — the end of an expansion — leaves the loop like a return does)
+			if x.Label == nil || x.Tok != token.BREAK || !strings.HasPrefix(x.Label.Name, "__L") {
+				okBody = false
+			}
+		}
+		return okBody
+	})
+	if !okBody {
+		return false
+	}
+	fn := N.fset.Position(rs.Pos()).Filename
+	src := N.src(fn)
+	off := func(pos token.Pos) int { return N.fset.Position(pos).Offset }
+	body0 := string(src[off(rs.Body.Lbrace) : off(rs.Body.Rbrace)+1])
+	var sb strings.Builder
+	for k := int64(0); k < arr.Len(); k++ {
+		body := body0
+		for _, l := range ownLabels {
+			body = regexp.MustCompile(`\b`+regexp.QuoteMeta(l)+`\b`).ReplaceAllString(body, fmt.Sprintf("%s_u%d", l, k))
+		}
+		sb.WriteString("{ ")
+		if id := identOf(rs.Key); id != nil && id.Name != "_" {
+			fmt.Fprintf(&sb, "%s := %d; _ = %s; ", id.Name, k, id.Name)
+		}
+		if rs.Value != nil {
+			if id := identOf(rs.Value); id != nil && id.Name != "_" {
+				fmt.Fprintf(&sb, "%s := %s[%d]; _ = %s; ", id.Name, aid.Name, k, id.Name)
+			}
+		}
+		sb.WriteString(body)
+		sb.WriteString(" }\n")
+	}
+	N.edits[fn] = append(N.edits[fn], textEdit{off(rs.Pos()), off(rs.End()) - off(rs.Pos()), sb.String()})
+	N.info.Inlined = append(N.info.Inlined, "array loop written out at "+N.fset.Position(rs.Pos()).String())
+	return true
 }
